@@ -216,8 +216,19 @@ def main() -> int:
                 }
             )
     specs.sort(key=lambda s: -s["budget"])
+    # A ceiling on the wall time of the symbolic stage: jobs that have not been started by then are reported as
+    # inconclusive ("not started"), never as confirmed.  It is not reached by the quick tier; it keeps the thorough
+    # tier of the widest harnesses (hundreds of partitions) within a known time.
+    wall_cap = float(os.environ.get("VERIF_WALL_CAP", "0") or 0) or (1800.0 if tier == "quick" else 2700.0)
+    t_sym = time.time()
+
+    def run_capped(spec, timeout):
+        if time.time() - t_sym > wall_cap:
+            return {"harness": spec["harness"], "part": spec.get("part", {}), "verdict": "CANNOT_CONFIRM", "not_started": True, "paths": 0}
+        return run_job(spec, timeout)
+
     with ThreadPoolExecutor(max_workers=a.procs) as ex:
-        futs = {ex.submit(run_job, s, s["budget"] * 3 + 240): s for s in specs}
+        futs = {ex.submit(run_capped, s, s["budget"] * 3 + 240): s for s in specs}
         for fut in as_completed(futs):
             s = futs[fut]
             r = fut.result()
@@ -232,7 +243,7 @@ def main() -> int:
         if v in ("CONFIRMED", "KNOWN_REGION"):
             continue
         if v == "CANNOT_CONFIRM":
-            inconclusive.append(tag)
+            inconclusive.append(tag + (" (not started: wall-time cap of the tier)" if r.get("not_started") else ""))
         elif v == "REFUTED":
             args = r.get("cex_args")
             if args is None:
